@@ -40,12 +40,18 @@ Rank(f) == LET p == IF f.prio = "none" THEN "medium" ELSE Alias(f.prio) IN
            ELSE IdxOf(IF f.cat = "none" THEN "uncategorized" ELSE f.cat) * 10 + (CASE p = "low" -> 7 [] p = "medium" -> 5 [] p = "high" -> 3 [] OTHER -> 1)
 
 (* ---------- suppression ---------- *)
+\* Field tokens stand for dictionaries over two keys <<k, j>>; "-" = key absent (suppression side only).
+FM(t) == CASE t = "f1" -> <<"1", "1">> [] t = "f2" -> <<"2", "1">> [] t = "f3" -> <<"1", "2">>
+           [] t = "k1" -> <<"1", "-">> [] t = "j1" -> <<"-", "1">> [] t = "k2" -> <<"2", "-">>
+           [] OTHER -> <<"-", "-">>
+\* a suppression's fields match when every key it names has the same value in the feedback
+FldMatch(sf, ff) == \A i \in 1..2 : FM(sf)[i] = "-" \/ FM(sf)[i] = FM(ff)[i]
 Suppressed(f, S) == \E s \in S :
     \/ s.k = "cat" /\ s.cat = f.cat
     \/ s.k = "catlabel" /\ s.cat = f.cat /\ s.label = f.label
-    \/ s.k = "catlabelf" /\ s.cat = f.cat /\ s.label = f.label /\ s.fld = f.flds
+    \/ s.k = "catlabelf" /\ s.cat = f.cat /\ s.label = f.label /\ FldMatch(s.fld, f.flds)
     \/ s.k = "label" /\ s.label = f.label
-    \/ s.k = "labelf" /\ s.label = f.label /\ s.fld = f.flds
+    \/ s.k = "labelf" /\ s.label = f.label /\ FldMatch(s.fld, f.flds)
 
 Eligible(f, S) == f.trig /\ ~f.muted /\ f.kind # "Compliment" /\ ~Suppressed(f, S)
 
